@@ -5,7 +5,8 @@ Alphabet (see DESIGN.md C14):
   ("newbad", j)   create a context object with an invalid pattern pair j (constructor does not validate)
   ("enter", k)    __enter__ of the k-th created object (also one that is already entered)
   ("exit",)       leave the innermost entered context normally
-  ("exitexc",)    leave the innermost entered context with an exception in flight
+  ("exitexc",)    leave the innermost entered context with an exception in flight (an Exception subclass)
+  ("exitbase",)   the same with an exception that is NOT an Exception subclass (KeyboardInterrupt / a BaseException)
   ("set", i)      DescriptorFormat.set_config with valid pair i
   ("setbad", j)   DescriptorFormat.set_config with invalid pair j  (must raise ValueError, change nothing)
 After every step: DescriptorFormat.config and DecayChain.to_string() of a fixed two-level chain must equal the
@@ -72,7 +73,7 @@ def _enabled(model, nobj):
         ops += [("newbad", 0), ("newbad", 6)]
     ops += [("enter", k) for k in range(nobj)]
     if model.stack:
-        ops += [("exit",), ("exitexc",)]
+        ops += [("exit",), ("exitexc",), ("exitbase",)]
     ops += [("set", i) for i in range(len(VALID))]
     ops += [("setbad", j) for j in range(len(INVALID))]
     return ops
@@ -114,13 +115,19 @@ def run_history(hist, check_all=False):
                     o.__enter__()
                     entered.append(o)
                     model.enter(op[1], fmt)
-            elif op[0] in ("exit", "exitexc"):
+            elif op[0] in ("exit", "exitexc", "exitbase"):
                 o = entered.pop()
                 if op[0] == "exit":
                     o.__exit__(None, None, None)
-                else:
+                elif op[0] == "exitexc":
                     e = KeyError("boom")
                     o.__exit__(KeyError, e, None)
+                else:
+                    e = KeyboardInterrupt()
+                    try:
+                        o.__exit__(KeyboardInterrupt, e, None)
+                    except KeyboardInterrupt:
+                        pass  # an implementation may re-raise the exception in flight: that is how a with-block behaves
                 model.leave()
             elif op[0] == "set":
                 DF.set_config(*VALID[op[1]])
@@ -179,6 +186,11 @@ class _Leave(Exception):
         self.pos = pos
 
 
+class _LeaveBase(BaseException):
+    def __init__(self, pos):
+        self.pos = pos
+
+
 def run_with_blocks(hist):
     """Second driver: the same history through real `with` statements (needs a well-nested history:
     every enter is matched by an exit/exitexc later or stays open until the end). Returns per-step observations."""
@@ -212,7 +224,7 @@ def run_with_blocks(hist):
                         i = drive(i + 1, depth + 1)
                         if i is None:
                             raise _End
-                except _Leave as e:
+                except (_Leave, _LeaveBase) as e:
                     i = e.pos
                 except ValueError:
                     pass  # invalid context: __enter__ refused, block not run
@@ -227,6 +239,10 @@ def run_with_blocks(hist):
                 if depth == 0:
                     raise RuntimeError("not well nested")
                 raise _Leave(i)
+            elif op[0] == "exitbase":
+                if depth == 0:
+                    raise RuntimeError("not well nested")
+                raise _LeaveBase(i)
             obs.append((_fmt_of(DF.config), dc.to_string()))
             i += 1
         return None
@@ -258,7 +274,7 @@ def _direct_obs(hist):
                 # refused: with-driver records nothing inside, one observation after
                 obs.append((model.current, _expected_string(model.current)))
                 continue
-        elif op[0] in ("exit", "exitexc"):
+        elif op[0] in ("exit", "exitexc", "exitbase"):
             model.leave()
         obs.append((model.current, _expected_string(model.current)))
     return obs
@@ -301,7 +317,7 @@ def _well_nested_histories(maxlen):
                 elif op[0] == "enter":
                     if k2[op[1]] is not None:
                         m2.enter(op[1], k2[op[1]])
-                elif op[0] in ("exit", "exitexc"):
+                elif op[0] in ("exit", "exitexc", "exitbase"):
                     m2.leave()
                 elif op[0] == "set":
                     m2.set(VALID[op[1]])
@@ -344,4 +360,4 @@ def run(ctx):
     ctx.count(transitions=sum(len(h) for h in hs), traces=n)
     ctx.part("with-driver", histories=n, max_len=5 if ctx.thorough else 4)
     ctx.extra["bound_completed"] = {"history_length": depth, "all_histories_up_to": forced, "max_context_objects": MAX_OBJ}
-    ctx.extra["alphabet"] = ["new(i)", "newbad(j)", "enter(k)", "exit", "exitexc", "set(i)", "setbad(j)"]
+    ctx.extra["alphabet"] = ["new(i)", "newbad(j)", "enter(k)", "exit", "exitexc", "exitbase", "set(i)", "setbad(j)"]
